@@ -2,19 +2,21 @@
 # no-false-alarm test: apply each behaviour-preserving patch given on the command line to /repo, run every registered quick
 # check (or the ones named in $CHECKS), expect exit 0 and no VIOLATION line, undo. Never leaves /repo modified.
 cd "$(dirname "$(readlink -f "$0")")/.."
-if ! git -C /repo diff --quiet; then echo "/repo has uncommitted changes"; exit 2; fi
+R=${VERIF_REPO:-/repo}
+if ! git -C $R diff --quiet; then echo "$R has uncommitted changes"; exit 2; fi
 all=$(python3 -c "import json;print(' '.join(c['property_id'] for c in json.load(open('MANIFEST.json'))['checks']))")
 fail=0
 for patch in "$@"; do
   patch=$(readlink -f "$patch")
-  git -C /repo apply "$patch" || { echo "$patch: does not apply"; fail=1; continue; }
-  files=$(git -C /repo diff --name-only | tr '\n' ' ')
+  git -C $R apply "$patch" || { echo "$patch: does not apply"; fail=1; continue; }
+  files=$(git -C $R diff --name-only | tr '\n' ' ')
   for p in ${CHECKS:-$all}; do
     # the eBPF and Kani checks only read these files; skip them (slow) when the patch is elsewhere
     if [ -z "$CHECKS" ]; then
       case $p in
         C06) echo "$files" | grep -qE "linux-ebpf|ebpf_obj|bpf_prog|redirector" || continue;;
         C20) echo "$files" | grep -qE "proxy_agent_extension|proxy_agent_shared" || continue;;
+        C17) echo "$files" | grep -qE "proxy_agent_setup|proxy_agent_shared" || continue;;
       esac
     fi
     s=$(date +%s); out=$(./check $p --tier quick 2>&1); rc=$?; e=$(( $(date +%s) - s ))
@@ -24,6 +26,6 @@ for patch in "$@"; do
       mkdir -p /var/tmp/gpa-verif-cache/refactor; echo "$out" > /var/tmp/gpa-verif-cache/refactor/$(basename $(dirname $patch))-$(basename $patch)-$p.log
     else echo "quiet       $(basename $(dirname $patch))/$(basename $patch) $p ${e}s"; fi
   done
-  git -C /repo checkout -- .
+  git -C $R checkout -- .
 done
 exit $fail
